@@ -4,5 +4,5 @@ From Koala Require Import Model.Points.
 Require Extraction.
 Require Import ExtrOcamlBasic.
 Extraction "model.ml"
-  mkState init step run_trace run finished normalise bluenoise hyperuniform_crop uniform
-  out_of_domain far_from_all d2.
+  mkState init step run_trace run finished normalise bluenoise inside_open_unit hyperuniform_crop
+  hyperuniform uniform out_of_domain far_from_all d2.
